@@ -953,3 +953,21 @@ _RANK = {'bool': 0, 'int': 1, 'float': 2, 'complex': 3, 'object': 4}
 
 def promote(*dts):
     return max(dts, key=lambda d: _RANK[d])
+
+
+def trig_special_values():
+    """sin/cos at pi/2 and pi (A4)."""
+    c = ctx()
+    p = pi()
+    h = p * Q(1, 2)
+    c.fact(z3.And(F_SIN(h) == 1, F_COS(h) == 0, F_SIN(p) == 0, F_COS(p) == -1), key=('trig-special',))
+    for t in (h, p):
+        c.fact(F_SIN(t) * F_SIN(t) + F_COS(t) * F_COS(t) == 1, key=('trig', t.get_id()))
+
+
+def trig_shift_pi(x):
+    """sin(x + pi) = -sin x, cos(x + pi) = -cos x at the given argument (A4)."""
+    x = to_real(x)
+    y = _simp(x + pi())
+    ctx().fact(z3.And(F_SIN(y) == -F_SIN(x), F_COS(y) == -F_COS(x)), key=('trig-shift', x.get_id()))
+    return y
